@@ -92,6 +92,8 @@ def _one(cls, path, kind, cname, shape, CODE, VENDOR, VALUES, DFLAGS, MANDATORY)
     class _C:
         args = {"data": shape}
         max_paths = 400
+        # generated family (1648 contracts): sampled natively in the thorough tier only
+        samples = 1 if os.environ.get("VERIF_TIER") == "thorough" else 0
 
         def ensures_identity(result):
             return raw(result, "code") == CODE and raw(result, "vendor_id") == VENDOR \
@@ -398,6 +400,7 @@ def _wire(cls):
     class _W:
         args = {"data": T.Bytes(maxlen=65536)}
         max_paths = 400
+        samples = 1 if os.environ.get("VERIF_TIER") == "thorough" else 0
         if kind == "DiameterURI":
             regions = {"KF-C03-uri-utf8": not_utf8}
 
